@@ -45,6 +45,8 @@ exactly two recorded defects:
 Core Lean only.
 -/
 import SerfProofs.Lemmas.NodeObserver
+import SerfProofs.Props.C15
+import SerfProofs.Lemmas.ClusterSync
 namespace SerfProofs.C01
 open SerfModel SerfModel.Node SerfProofs.NodeGossip SerfProofs.NodeObserver
 
@@ -183,5 +185,72 @@ nothing: the observer lists a running member as leaving -/
 theorem C01_running_alive_counterexample :
     statusOf (run (Node.init "a" {}) [.nodeJoin "x", .leaveMsg "x" 5 false 0, .nodeLeave "x" 0, .nodeJoin "x",
       .merge 6 [("x", 5)] ["x"] 0, .joinMsg "x" 6 0]) "x" = some .leaving := by decide
+
+/-! ### the reaper lists never cost a running member its entry
+
+A member that memberlist reports up is listed alive or leaving, hence (bookkeeping invariant, C15)
+on neither reaper list, hence never erased by the reaper — after EVERY history, in particular after
+failed → left (force-leave) → rejoin, where `handleNodeJoin` must scrub BOTH lists (seeded change
+C01-a scrubs only one and the rejoined member is reaped while alive). -/
+
+theorem C01_alive_never_reaped (name : Name) (cfg : Config) (ops : List Op) (x : Name) (now : Nat)
+    (ov : Name → Nat → Nat)
+    (hs : statusOf (run (Node.init name cfg) ops) x = some .alive ∨ statusOf (run (Node.init name cfg) ops) x = some .leaving) :
+    statusOf (step (run (Node.init name cfg) ops) (.reap now ov)).1 x = statusOf (run (Node.init name cfg) ops) x := by
+  have h := SerfProofs.C15.C15_reaper_spares_unlisted _ now ov
+    (SerfProofs.C15.C15_inv_run _ ops (SerfProofs.C15.C15_inv_init name cfg)) x hs
+  simp only [step, statusOf, h]
+
+/-- the C01-a history: x fails, is force-left (failed → left), comes back, and survives every later reaper tick -/
+example : statusOf (run (Node.init "a" {}) [.nodeJoin "x", .nodeLeave "x" 0, .leaveMsg "x" 4 false 0,
+    .nodeJoin "x", .reap 100000 (fun _ t => t), .reap 200000 (fun _ _ => 0)]) "x" = some .alive := by decide
+example : (run (Node.init "a" {}) [.nodeJoin "x", .nodeLeave "x" 0, .leaveMsg "x" 4 false 0, .nodeJoin "x"]).failed = [] ∧
+    (run (Node.init "a" {}) [.nodeJoin "x", .nodeLeave "x" 0, .leaveMsg "x" 4 false 0, .nodeJoin "x"]).left = [] := by decide
+
+/-! ### Serf adds no divergence on top of a truthful memberlist and a completed anti-entropy round
+
+Cluster form of the claim, over `SerfModel.Cluster`: take ANY reachable cluster state (any scenario of
+joins, leaves, crashes, restarts-as-rejoins, force-leaves, partitions = lost / delayed / duplicated
+gossip and push/pulls) in which memberlist is truthful about x for the running nodes `R` (`UpView` /
+`DownView`: ASSUMED — memberlist's own convergence), and let one complete anti-entropy round run
+(`syncRound`).  Then the Serf views agree and match the truth, except in the explicitly excluded,
+decidable classes, each shown necessary by a counterexample (see Props/C02.lean, "the agreement clause
+at the property's full statement"): `NoTie` (recorded finding rejoined-stuck-leaving and the
+unrefuted claim), a leave older than a join known elsewhere (`stale_left_counterexample`), the
+clock wrap. -/
+
+section Converged
+open SerfModel.Cluster SerfProofs.Cluster SerfProofs.ClusterSync
+
+/-- every running member is listed alive by every running member that lists it, after healing -/
+theorem C01_converged_running_partial (names : List Name) (cfg : Config) (steps : List CStep) (R : List Nat)
+    (x : Name) (w : Nat) (hu : UpView (crun (Cluster.init names cfg) steps) R x)
+    (ht : NoTie (crun (Cluster.init names cfg) steps) R x) :
+    ∀ i ∈ R, ∀ n', (syncRound (crun (Cluster.init names cfg) steps) R w).nodes[i]? = some n' →
+      ∀ s, statusOf n' x = some s → s = .alive :=
+  fun i hi n' hn' s hs => (agreement_running _ R x w (allBook_crun names cfg steps) hu ht i hi n' hn' s hs).1
+
+/-- a member that left gracefully (somebody holds its leave, newer than every join known) is listed left by all -/
+theorem C01_converged_left_partial (names : List Name) (cfg : Config) (steps : List CStep) (R : List Nat)
+    (x : Name) (w : Nat) (hd : DownView (crun (Cluster.init names cfg) steps) R x)
+    (hl : SomeLeftAtMax (crun (Cluster.init names cfg) steps) R x)
+    (hw : maxLtime (crun (Cluster.init names cfg) steps) R x < two64 - 1) :
+    ∀ i ∈ R, ∀ n', (syncRound (crun (Cluster.init names cfg) steps) R w).nodes[i]? = some n' →
+      ∀ s, statusOf n' x = some s → s = .left :=
+  agreement_left _ R x w (allBook_crun names cfg steps) hd hl hw
+
+/-- a crashed member (nobody holds a leave for it) is listed failed by all -/
+theorem C01_converged_failed (names : List Name) (cfg : Config) (steps : List CStep) (R : List Nat)
+    (x : Name) (w : Nat) (hd : DownView (crun (Cluster.init names cfg) steps) R x)
+    (hn : NobodyLeft (crun (Cluster.init names cfg) steps) R x) :
+    ∀ i ∈ R, ∀ n', (syncRound (crun (Cluster.init names cfg) steps) R w).nodes[i]? = some n' →
+      ∀ s, statusOf n' x = some s → s = .failed :=
+  fun i hi n' hn' s hs => (agreement_failed _ R x w (allBook_crun names cfg steps) hd hn i hi n' hn' s hs).1
+
+example : UpView healC [0, 1, 2] "x" ∧ NoTie healC [0, 1, 2] "x" := ⟨running_example.2.1, running_example.2.2.1⟩
+example : DownView leftC [0, 1] "x" ∧ SomeLeftAtMax leftC [0, 1] "x" := ⟨left_example.2.1, left_example.2.2.1⟩
+example : DownView failC [0, 1] "x" ∧ NobodyLeft failC [0, 1] "x" := ⟨failed_example.2.1, failed_example.2.2.1⟩
+
+end Converged
 
 end SerfProofs.C01
